@@ -666,6 +666,7 @@ class Engine:
         self.path_notes = []
         self.fits = {}
         self.ctx_children = {}
+        self.vtime = 0
         self.timer_log = []
         self.chan_hooks = {}
         self.wg_counters = {}
